@@ -313,3 +313,20 @@ M('C12', 'init-acc-param-dtype', SM3, "      accumulators = [jnp.zeros([s]) for 
 M('C12', 'rank1-override-dropped', SM3, "    if grad.ndim == 1:\n      all_diagonal_statistics[0] = updated_diagonal_statistics\n", "")
 TW('C12', 'twin-combine-maximum', SM3, "      min_accumulator = functools.reduce(jnp.minimum, accumulators)", "      min_accumulator = functools.reduce(jnp.maximum, accumulators)")
 TW('C12', 'twin-square', SM3, "      return beta2 * min_accumulator + w * grad**2", "      return w * jnp.square(grad) + min_accumulator * beta2")
+
+# ------------------------------------------------------------------ C13
+M('C13', 'pmap-pad-count-wrong', DS, "    to_pad = -num_statistics % num_devices\n    packed_statistics.extend([", "    to_pad = num_statistics % num_devices\n    packed_statistics.extend([")
+M('C13', 'quantized-pad-count-wrong', DS, "    to_pad = -num_statistics % num_devices\n    padded_eye", "    to_pad = (num_devices - num_statistics) % num_devices + num_devices\n    padded_eye")
+M('C13', 'sharded-update-pad-count', DS, "    to_pad = -len(new_padded_statistics) % num_devices_for_pjit\n    if not new_padded_statistics:", "    to_pad = len(new_padded_statistics) % num_devices_for_pjit\n    if not new_padded_statistics:")
+M('C13', 'sharded-init-no-empty-case', DS, "    if max_size == 0:\n      to_pad = num_devices_for_pjit\n      max_size = block_size", "    if max_size == 0:\n      max_size = block_size")
+M('C13', 'exponents-not-padded', DS, "    exponents.extend([1 for _ in range(to_pad)])\n    paddings = [len(stat) for stat in statistics] + [0] * to_pad\n\n    if not packed_statistics:", "    paddings = [len(stat) for stat in statistics] + [0] * to_pad\n\n    if not packed_statistics:")
+M('C13', 'paddings-one-extra', DS, "    paddings = [len(stat) for stat in statistics] + [0] * to_pad\n\n    if not packed_statistics:", "    paddings = [len(stat) for stat in statistics] + [0] * (to_pad + 1)\n\n    if not packed_statistics:")
+M('C13', 'pads-first', DS, "    paddings = [len(stat) for stat in statistics] + [0] * to_pad\n\n    if not packed_statistics:", "    paddings = [0] * to_pad + [len(stat) for stat in statistics]\n\n    if not packed_statistics:")
+M('C13', 'pad-exponent-2', DS, "    exponents.extend([1 for _ in range(to_pad)])\n    paddings = [len(stat) for stat in statistics] + [0] * to_pad\n\n    if not packed_statistics:", "    exponents.extend([2 for _ in range(to_pad)])\n    paddings = [len(stat) for stat in statistics] + [0] * to_pad\n\n    if not packed_statistics:")
+M('C13', 'batch-stride-devices', DS, "  return jnp.stack([jnp.stack(x[idx:idx + b]) for idx in range(0, n, b)])", "  return jnp.stack([jnp.stack(x[idx:idx + b]) for idx in range(0, n, num_devices)])")
+M('C13', 'batch-b-ceil', DS, "  b = int(n / num_devices)\n", "  b = int((n + num_devices - 1) / num_devices)\n")
+M('C13', 'unbatch-inner-axis', DS, "      for v in jnp.split(v_array, indices_or_sections=b2, axis=0):", "      for v in jnp.split(v_array, indices_or_sections=b2, axis=-1):")
+M('C13', 'replica-index-mismatch', DS, "            all_exponents[current_replica],\n            all_paddings[current_replica],\n            _maybe_ix(all_preconditioners, current_replica),", "            all_exponents[current_replica],\n            all_paddings[0],\n            _maybe_ix(all_preconditioners, current_replica),")
+M('C13', 'gather-other-axis', DS, "        preconditioners = jax.lax.all_gather(preconditioners, batch_axis_name)\n        metrics = jax.lax.all_gather(metrics, batch_axis_name)\n        preconditioners_flat = unbatch(preconditioners)", "        preconditioners = jax.lax.all_gather(preconditioners, 'batch')\n        metrics = jax.lax.all_gather(metrics, batch_axis_name)\n        preconditioners_flat = unbatch(preconditioners)")
+M('C13', 'quantized-precond-diag-slice', DS, "      ] + packed_quantized_diagonals[total - to_pad:]", "      ] + packed_quantized_diagonals[total - to_pad + 1:]")
+TW('C13', 'twin-pad-formula-variable', DS, "    to_pad = -num_statistics % num_devices\n    packed_statistics.extend([", "    to_pad = (-num_statistics) % num_devices\n    packed_statistics.extend([")
